@@ -119,6 +119,10 @@ class FullCheck(BaseCheck):
           # a well-framed reply whose payload the client cannot decode as this call's reply
           act['mangle'] = rng.choice(['truncate', 'empty', 'noise', 'bad-version', 'huge-string'])
           classes.add('reply:undecodable')
+        if not act.get('drop') and rng.random() < bias.get('cut_reply', 0.03):
+          # the server dies while it writes the reply: some of the frame's bytes, then end of stream
+          act['cut'] = rng.choice([1, 2, 3, 5, 9, 30])
+          classes.add('reply-cut-short-then-eof')
         if rng.random() < bias.get('close_after_reply', 0.02):
           act['close'] = rng.choice(['fin', 'rst'])
           if rng.random() < 0.5 and 'delay' in act:
@@ -501,6 +505,13 @@ class FullCheck(BaseCheck):
           viol('removal:connection-open-at-quiescence', 'member %s left the server set, all calls completed and '
                '%.1fs passed, but %d connection(s) to it are still open on the client side' % (
                  s_.ep, 2 * tmax + 1.0, len(open_conns)), {'balancer': balancer}, {'conns': open_conns[:5]})
+    # -------- a read loop that kept reading a connection at end-of-stream without yielding (it would
+    # never end: no timer, no other call could run again); the simulation broke it after 2000 reads
+    ob('once:')
+    for cid_, vt_ in net.read_spins[:2]:
+      viol('once:reader-spins-at-end-of-stream', 'a client read loop read connection %d 2000 times in one instant after '
+           'the peer had closed it in the middle of a frame, without yielding: it would spin for ever and no call could '
+           'complete any more' % cid_, {})
     w.close()
     env.advance(0.5)
     ok_errs = ('GreenletExit',)
